@@ -77,6 +77,17 @@ class C16Bounded(Bounded):
         docs.append({"transformations": [{"type": "value_placeholders", "include": ["ph"]}], "vars": {"ph": "v"}, "postprocessing": [{"type": "nest", "items": [dict(tmpl)]}]})
         docs.append({"transformations": [{"type": "value_placeholders", "include": ["ph"]}], "vars": {"ph": "v"}, "finalizers": [dict(tmpl, template="{{ queries }}")]})
         docs.append({"transformations": [{"type": "value_placeholders", "include": ["ph"]}], "vars": {"ph": "v"}, "finalizers": [{"type": "nested", "finalizers": [dict(tmpl, template="{{ queries }}")]}]})
+        # template TEXT is part of the pipeline document too: it must not be able to build an opted-in object out of what the template is
+        # given (the pipeline, the rule) - e.g. by calling a constructor / from_dict of a transformation with the opt-in key
+        ph = {"transformations": [{"type": "value_placeholders", "include": ["ph"]}], "vars": {"ph": "v"}}
+        esc_cmd = "{{ pipeline.items[-1].transformation.from_dict({'cmd': 'touch " + marker + "_cmd', 'allow_external_sources': true}).placeholder_replacements(none) | list }}"
+        esc_file = "{{ pipeline.items[-1].transformation.from_dict({'path': '" + secret + "', 'allow_external_sources': true}).placeholder_replacements(none) | list }}"
+        esc_pipe = "{{ pipeline.from_dict({'transformations': [{'type': 'command_placeholders', 'cmd': 'touch " + marker + "_cmd'}]}, true).items[0].transformation.placeholder_replacements(none) | list }}"
+        esc_vars = "{{ pipeline.postprocessing_items[0].transformation.from_dict({'template': 'x', 'vars': '" + varsfile + "', 'allow_template_vars': true}) }}"
+        for t_item, esc in ((ext_items[0], esc_cmd), (ext_items[1], esc_file), (ext_items[0], esc_pipe), (ext_items[0], esc_vars)):
+            base = {"transformations": ph["transformations"] + [dict(t_item, include=["nothing"])], "vars": {"ph": "v"}}
+            docs.append(dict(base, postprocessing=[{"type": "template", "template": esc + " {{ query }}"}]))
+            docs.append(dict(base, finalizers=[{"type": "template", "template": esc + " {{ queries }}"}]))
         masks = [0, 1, 2, 4, 8, 6, 14, 31] if tier == "quick" else list(range(32))
         ev = nontriv = 0
         fails, samples = [], []
